@@ -68,6 +68,8 @@ pub const CONTEXTS: &[(&str, &str)] = &[
     // binding forms that bind a PROCEDURE (a closure over the loop's frame, made every round)
     ("let-binding-a-lambda", "(let ((h (lambda () n))) CALL)"),
     ("let*-binding-a-lambda", "(let* ((t 1) (h (lambda () (list t n)))) CALL)"),
+    // a parallel let whose bindings exchange the loop variables (twice: the identity)
+    ("let-parallel-swap-twice", "(let ((n acc) (acc n)) (let ((n acc) (acc n)) CALL))"),
     // three sequentially dependent bindings
     ("let*-3-dependent", "(let* ((t n) (t2 t) (t3 (- t2 t))) CALL)"),
     // user-defined syntax-rules macros whose expansion puts the call in a tail position
@@ -98,6 +100,10 @@ fn ident(n: u32) -> i64 {
 /// the start call and every round make exactly one closure
 fn makes(n: u32) -> i64 {
     n as i64 + 1
+}
+/// up adds 1, down adds 10, alternately, up first
+fn up_down(n: u32) -> i64 {
+    ((n + 1) / 2) as i64 + 10 * (n / 2) as i64
 }
 fn alternating(n: u32) -> i64 {
     ((n + 1) / 2) as i64 + 3 * (n / 2) as i64
@@ -142,6 +148,14 @@ pub const SHAPES: &[Shape] = &[
         start: "(+ (* 0 ((make-counted) N 0)) made)",
         calls: &[("(make-counted)", "NEXT (+ acc 1)")],
         result: makes,
+    },
+    // the loop runs through a global variable that every round re-assigns before its tail call
+    Shape {
+        name: "through-an-assigned-variable",
+        defs: "(define step #f) (define (up n acc) (set! step down) BODY0) (define (down n acc) (set! step up) BODY1) (set! step up)",
+        start: "(step N 0)",
+        calls: &[("step", "NEXT (+ acc 1)"), ("step", "NEXT (+ acc 10)")],
+        result: up_down,
     },
     Shape { name: "closure-returned", defs: "(define (make-step) (lambda (n acc) BODY0))", start: "((make-step) N 0)", calls: &[("(make-step)", "NEXT (+ acc 1)")], result: ident },
 ];
